@@ -106,6 +106,12 @@ P12Help(c, useLong, obs) ==
   /\ MustAppear(c, useLong) \subseteq PresentPairs(obs)
   /\ MustNotAppear(c, useLong) \cap PresentToks(obs) = {}
   /\ \A p \in PresentPairs(obs) : p.sec \notin {"Top", "Usage"} => p.tok \notin NotListed(c, useLong)
+\* a custom template (Command::help_template): the statement asks of it only that it renders without panicking or unbounded
+\* padding; hidden things are filtered by the same code whatever the template, so they must not appear either
+P12Template(c, useLong, obs) ==
+  /\ ~obs.panicked
+  /\ obs.maxrun <= RunBound(c)
+  /\ MustNotAppear(c, useLong) \cap PresentToks(obs) = {}
 \* the generated `help` subcommand mirrors the command tree (names and hiddenness only): the mirror of level c lists
 \* c's visible subcommands and never names a hidden one
 MirrorMust(c) == {[sec |-> "Commands", tok |-> c.subs[i].name] : i \in {j \in 1..Len(c.subs) : ~c.subs[j].hide}}
